@@ -336,6 +336,16 @@ func runC10(ctx *runCtx) {
 			rep.violate(Violation{Kind: "property", Shape: r.sh + ":" + cc.Op, What: r.w, Replay: cc})
 		}
 	}
+	// the timeout goroutine itself against WS.Model.Timeout (the tie of WS.Props.C10Timeout)
+	{
+		var lines, expect, what []string
+		progs := 150
+		if ctx.thorough() {
+			progs = 2500
+		}
+		timeoutDifferential(rep, newRng(ctx.seed, "c10timeout"), progs, &lines, &expect, &what)
+		askAndCompare(ctx, lines, expect, what, "timeout-goroutine-model-vs-impl")
+	}
 	rep.sample(cases[0])
 	rep.sample(cases[len(cases)-1])
 }
